@@ -35,6 +35,9 @@ var c18Statuses = []c18Status{
 	{name: "success", code: samlgen.StatusOK, v: core.MustAccept},
 	{name: "requester", code: "urn:oasis:names:tc:SAML:2.0:status:Requester", v: core.MustReject},
 	{name: "responder+nested-success", code: "urn:oasis:names:tc:SAML:2.0:status:Responder", sub: samlgen.StatusOK, v: core.MustReject},
+	{name: "responder+nested-partiallogout", code: "urn:oasis:names:tc:SAML:2.0:status:Responder", sub: "urn:oasis:names:tc:SAML:2.0:status:PartialLogout", v: core.MustReject},
+	{name: "requester+nested-partiallogout", code: "urn:oasis:names:tc:SAML:2.0:status:Requester", sub: "urn:oasis:names:tc:SAML:2.0:status:PartialLogout", v: core.MustReject},
+	{name: "versionmismatch+nested-authnfailed", code: "urn:oasis:names:tc:SAML:2.0:status:VersionMismatch", sub: "urn:oasis:names:tc:SAML:2.0:status:AuthnFailed", v: core.MustReject},
 	{name: "success+nested-partiallogout", code: samlgen.StatusOK, sub: "urn:oasis:names:tc:SAML:2.0:status:PartialLogout", v: core.DontCare},
 	{name: "empty-code", code: "", v: core.MustReject},
 	{name: "no-statuscode", noCode: true, v: core.MustReject},
@@ -213,7 +216,7 @@ func runC18(c *core.Ctx) {
 	tols := []tol{{"default", 90 * time.Second, 180 * time.Second}, {"d20s-s40s", 20 * time.Second, 40 * time.Second}}
 	trusts := []string{"meta1", "fingerprint", "pinned"}
 	sps := map[string]*saml.ServiceProvider{}
-	for _, tr := range trusts {
+	for _, tr := range append(append([]string{}, trusts...), "metaenconly", "metaemptysign") {
 		sps[tr] = harness.NewSP(harness.SPOpt{Trust: tr})
 	}
 	call := func(sp *saml.ServiceProvider, enc string, doc []byte) (err error, pan string) {
@@ -264,6 +267,9 @@ func runC18(c *core.Ctx) {
 			dc = true
 		default:
 			v = core.MustReject
+		}
+		if tr == "metaenconly" || tr == "metaemptysign" {
+			v, dc = core.MustReject, false // the IdP publishes no signing key: no signature can be trusted
 		}
 		if v == core.MustAccept && dc {
 			v = core.DontCare
@@ -337,6 +343,21 @@ func runC18(c *core.Ctx) {
 			}
 		}
 	}
+	// IdP metadata without any usable signing key (encryption key only / empty signing descriptor): nothing verifies
+	c.Group("no-signing-key-published")
+	for _, tr := range []string{"metaenconly", "metaemptysign"} {
+		for _, sig := range []string{"valid", "valid-no-keyinfo", "encryption-use-key", "untrusted-key", "attacker-signed+trusted-cert-appended", "absent"} {
+			for _, enc := range []string{"form", "redirect", "request-get", "request-post"} {
+				tr, sig, enc := tr, sig, enc
+				key := fmt.Sprintf("trust=%s/all-fields-correct/sig=%s/%s", tr, sig, enc)
+				c.Case(key, func(t *core.T) {
+					t.NonTrivial()
+					one(t, key, tols[0], tr, 0, 0, 0, 0, sig, enc)
+				})
+			}
+		}
+	}
+
 	// dispatch wrappers with a valid signature
 	c.Group("request-dispatch")
 	for _, d := range devs {
